@@ -11,6 +11,8 @@ CONSTANTS
   WithClose = FALSE
   QueueGuardedClose = TRUE
   AtomicExpiry = TRUE
+  LeaverPolls = FALSE
+  NotifyFirst = FALSE
   NotifyOnExit = "panic"
 INVARIANTS Inv_AtMostOnce Inv_RejectedNeverRun Inv_MaxConcurrent Inv_Counts Inv_HandlerOnlyJobPanics
 PROPERTY Live_ExactlyOnce
